@@ -16,6 +16,7 @@ EXTENDS PathLookupOps, TLC
 
 CONSTANTS CoreCfg,     \* "two": ISD 1 has core ASes c1, c2; "one": only c1
           MaxStore, MaxDead, MaxRev,  \* bounds on registered / expired / revoked segments
+          Contract,                   \* TRUE: a reply only holds segments that satisfy the request
           MaxBad, MaxExtra            \* remote fetch: unverifiable segments / segments for other destinations
                                       \* a path server may add to its replies (0, 0: everything is local)
 
@@ -62,7 +63,7 @@ StartOf(p) == LET s == p[1] IN IF s.t = "down" THEN s.first ELSE s.last
 
 Lookup ==
     /\ store = {} /\ result = {}
-    /\ \E S \in SUBSET Universe : \E D \in SUBSET S : \E V \in SUBSET S : \E U \in SUBSET S : \E X \in SUBSET S :
+    /\ \E S \in SUBSET Universe : \E D \in SUBSET S : \E V \in SUBSET S : \E U \in (IF MaxBad = 0 THEN {{}} ELSE SUBSET S) : \E X \in (IF MaxExtra = 0 THEN {{}} ELSE SUBSET S) :
          /\ S # {} /\ Cardinality(S) <= MaxStore /\ Cardinality(D) <= MaxDead /\ Cardinality(V) <= MaxRev
          /\ Cardinality(U) <= MaxBad /\ Cardinality(X) <= MaxExtra
          /\ store' = S /\ dead' = D /\ revoked' = V /\ bad' = U
@@ -72,7 +73,7 @@ Lookup ==
                      \* the matching segments, possibly segments for other destinations (X) and unverifiable
                      \* ones (U); the reply handler verifies, stores and hands on only the verified ones
                      Answer(r) == IF r.t = "up" \/ (MaxBad = 0 /\ MaxExtra = 0) THEN Resolve(r, S)
-                                  ELSE (Resolve(r, S) \cup {x \in X : x.t = r.t}) \ U
+                                  ELSE (Resolve(r, S) \cup (IF Contract THEN {} ELSE {x \in X : x.t = r.t})) \ U
                      got == UNION {Answer(r) : r \in rq}
                      ups == {s \in got : s.t = "up"}
                      cores == {s \in got : s.t = "core"}
